@@ -367,16 +367,6 @@ func VP_C19_cli_opb() {
 	}
 	text += line.String()
 	fl := []string{"", "-cp", "-count"}[zzvp.Choose("flag", zzvp.Param("flags", 3))]
-	zzvp.SetFile("f.opb", text)
-	args := []string{"gophersat"}
-	if fl != "" {
-		args = append(args, fl)
-	}
-	zzvp.SetArgs(append(args, "f.opb"))
-	code := zzvp.RunMain(main)
-	out := zzvp.Output()
-	zzvp.Obs("text", text)
-	zzvp.Obs("flag", fl)
 	holds := func(a int) bool {
 		for _, c := range cons {
 			s := 0
@@ -404,6 +394,22 @@ func VP_C19_cli_opb() {
 	if withMin {
 		nv = n
 	}
+	vpRunOPB(text, fl, nv, holds, cost)
+}
+
+// vpRunOPB runs the command on an .opb text and judges what it prints against
+// the text's own semantics (holds / cost over nv variables).
+func vpRunOPB(text, fl string, nv int, holds func(a int) bool, cost func(a int) int) {
+	zzvp.SetFile("f.opb", text)
+	args := []string{"gophersat"}
+	if fl != "" {
+		args = append(args, fl)
+	}
+	zzvp.SetArgs(append(args, "f.opb"))
+	code := zzvp.RunMain(main)
+	out := zzvp.Output()
+	zzvp.Obs("text", text)
+	zzvp.Obs("flag", fl)
 	best, cnt := -1, 0
 	for a := 0; a < 1<<uint(nv); a++ {
 		if holds(a) {
@@ -452,6 +458,97 @@ func VP_C19_cli_opb() {
 		}
 	}
 	zzvp.Reach("optimum")
+}
+
+// OPB skeletons for the command line: objective terms and constraints over 4-5 variables.
+type vpOPBSk struct {
+	obj  [][2]int // literal, coefficient
+	cons [][]int  // literal, coefficient, ..., degree
+}
+
+var vpCLISkeletons = []vpOPBSk{
+	// 0: one weighted constraint, objective over all its variables with mixed signs
+	{[][2]int{{2, 4}, {-4, 3}, {1, 2}, {3, 4}}, [][]int{{-3, 4, 1, 2, 2, 3, -4, 1, 7}}},
+	// 1: two constraints sharing variables, a unit constraint fixing an objective literal
+	{[][2]int{{1, 3}, {2, 2}, {-3, 4}, {5, 1}}, [][]int{{1, 1, 2, 1, 3, 1, 2}, {-1, 2, 4, 1, 5, 2, 3}, {-5, 1, 1}}},
+}
+
+// VP_C19_cli_opb_skeleton: .opb files built from skeletons over 4-5 variables
+// (several improving models before the optimum), signs chosen by the solver.
+func VP_C19_cli_opb_skeleton() {
+	sk := vpCLISkeletons[zzvp.Choose("skeleton", zzvp.Param("nskel", len(vpCLISkeletons)))]
+	maxSym, cnt := zzvp.Param("maxsigns", 6), 0
+	flip := func(l int) int {
+		if cnt < maxSym {
+			cnt++
+			if zzvp.Choose("flip", 2) == 1 {
+				return -l
+			}
+		}
+		return l
+	}
+	term := func(w, l int) string {
+		if l > 0 {
+			return fmt.Sprintf("+%d x%d ", w, l)
+		}
+		return fmt.Sprintf("+%d ~x%d ", w, -l)
+	}
+	nv := 0
+	var obj [][2]int
+	text := "min: "
+	for _, t := range sk.obj {
+		l := flip(t[0])
+		if vpAbs(l) > nv {
+			nv = vpAbs(l)
+		}
+		obj = append(obj, [2]int{l, t[1]})
+		text += term(t[1], l)
+	}
+	text += ";\n"
+	type con struct {
+		lits, ws []int
+		d        int
+	}
+	var cons []con
+	for _, c := range sk.cons {
+		k := con{d: c[len(c)-1]}
+		for i := 0; i+1 < len(c); i += 2 {
+			l := flip(c[i])
+			if vpAbs(l) > nv {
+				nv = vpAbs(l)
+			}
+			k.lits, k.ws = append(k.lits, l), append(k.ws, c[i+1])
+			text += term(c[i+1], l)
+		}
+		text += fmt.Sprintf(">= %d ;\n", k.d)
+		cons = append(cons, k)
+	}
+	litTrue := func(l, a int) bool { return ((a>>uint(vpAbs(l)-1))&1 == 1) == (l > 0) }
+	holds := func(a int) bool {
+		for _, c := range cons {
+			s := 0
+			for i, l := range c.lits {
+				if litTrue(l, a) {
+					s += c.ws[i]
+				}
+			}
+			if s < c.d {
+				return false
+			}
+		}
+		return true
+	}
+	cost := func(a int) int {
+		c := 0
+		for _, t := range obj {
+			if litTrue(t[0], a) {
+				c += t[1]
+			}
+		}
+		return c
+	}
+	fl := []string{"", "-cp"}[zzvp.Choose("flag", zzvp.Param("flags", 2))]
+	vpRunOPB(text, fl, nv, holds, cost)
 }
 
 // VP_C19_cli_misc: .wcnf and .bf files, unknown suffix, missing file, help.
